@@ -417,3 +417,31 @@ Lemma steps_history (ops : list (angle -> angle)) (ks : list Z) a :
   canonp (rem a) ->
   steps_to a (fold_left (fun x f => f x) ops a) (fold_left Z.add ks 0%Z).
 Proof. intros H C. apply steps_history_gen; auto. now apply steps_refl. Qed.
+
+(* associativity up to four addition tolerances (each side is within two of the real sum) *)
+Lemma geometric_add_assoc a b c : canonp (rem a) -> canonp (rem b) -> canonp (rem c) ->
+  Rabs (theta (geometric_add (geometric_add a b) c) - theta (geometric_add a (geometric_add b c)))
+    <= 4 * (R_ eps10 + / 2251799813685248).
+Proof.
+intros Ca Cb Cc.
+destruct (geometric_add_canon a b Ca Cb) as [Cab _]. destruct (geometric_add_canon b c Cb Cc) as [Cbc _].
+pose proof (geometric_add_total a b Ca Cb) as H1. pose proof (geometric_add_total (geometric_add a b) c Cab Cc) as H2.
+pose proof (geometric_add_total b c Cb Cc) as H3. pose proof (geometric_add_total a (geometric_add b c) Ca Cbc) as H4.
+apply Rabs_le_inv in H1. apply Rabs_le_inv in H2. apply Rabs_le_inv in H3. apply Rabs_le_inv in H4.
+apply Rabs_le. lra.
+Qed.
+
+(* (a + b) - b returns a: totals within the sum of one addition and one subtraction tolerance,
+   whenever a carries at least one blade (no wrap-around can occur) *)
+Lemma add_sub_roundtrip a b : canonp (rem a) -> canonp (rem b) -> (1 <= blade a)%Z ->
+  Rabs (theta (geometric_sub (geometric_add a b) b) - theta a)
+    <= 2 * R_ eps10 + 5 * / 4503599627370496.
+Proof.
+intros Ca Cb Ha. destruct (geometric_add_canon a b Ca Cb) as [Cab Bab].
+assert (Hb : (blade b + 1 <= blade (geometric_add a b))%Z) by (destruct Bab as [E|E]; rewrite E; lia).
+pose proof (geometric_add_total a b Ca Cb) as H1.
+pose proof (geometric_sub_total (geometric_add a b) b Cab Cb Hb) as H2.
+apply Rabs_le_inv in H1. apply Rabs_le_inv in H2. apply Rabs_le. lra.
+Qed.
+
+(* grade_angle stays inside [0, 2pi): for a canonical angle it is below 4q - 1e-10 + rounding *)
